@@ -12,7 +12,7 @@ OUT=work/benign_${BENIGN_TAG:-all}.tsv
 CHECKS="C01 C02 C03 C04 C05 C06 C07 C08 C09 C10 C11 C12 C13 C14 C15 C16 C17 C18 C19 C20"
 for b in ${BENIGN:?list of variations}; do
   git -C "$REPO_COPY" checkout -q -- .
-  git -C "$REPO_COPY" apply "seeded/benign/$b/patch.diff" || { echo "$b patch failed"; continue; }
+  git -C "$REPO_COPY" apply "$PWD/seeded/benign/$b/patch.diff" || { echo "$b patch failed"; continue; }
   for c in ${BENIGN_CHECKS:-$CHECKS}; do
     timeout 3600 ./check $c --tier quick > work/b_${b}_$c.log 2>&1
     rc=$?
